@@ -336,14 +336,14 @@ def build_cases(tier):
             add(method="bfgs", speculative=spec, split=split, L=4, npts=3)
             add(method="cobyla", speculative=spec, split=split, nkinds=("lower", "upper"), L=4)
             add(method="differential_evolution", speculative=spec, split=split, nkinds=("eq",), L=4, batch=2)
-        add(method="slsqp", nkinds=("lower",), L=5)
+        add(method="slsqp", nkinds=("lower",), L=4)
         add(method="tnc", L=5, npts=3)
     return cases
 
 
 META = dict(
     bounds={"quick": "request scripts of length <=3 over {objective, gradient, each normalised constraint value, each constraint Jacobian} x 2-3 pool points, chosen by solver variables; speculative x split_evaluations; slsqp, l-bfgs-b (gradient), nelder-mead, cobyla (gradient-free), differential_evolution (also vectorised batches of 2); N=2",
-            "thorough": "scripts of length 4-5, three pool points, two constraints of mixed kinds",
+            "thorough": "scripts of length 4 (5 for the two-callable tnc case), three pool points, two constraints of mixed kinds",
             "outside": "longer scripts; the orders SciPy's algorithms really produce are a subset of the scripts; points closer than 1e-3(1+|x|) but not identical"},
     stubs=["scipy.optimize.minimize / differential_evolution / Bounds / LinearConstraint / NonlinearConstraint: recorders; the captured callables are invoked by the harness",
            "optimizer callback: returns, for the pool point it is asked about, that point's symbols (the ensemble value is a function of the point)"],
